@@ -37,7 +37,7 @@ def is_value(x) -> bool:
     return True
   if isinstance(x, (type, types.ModuleType)) or isinstance(x, _FN_TYPES):
     return True
-  if isinstance(x, _rec.Sentinel):
+  if isinstance(x, _rec.Sentinel) or getattr(type(x), 'vt_value_object', False):
     return True
   t = type(x)
   if t is tuple:
@@ -93,6 +93,8 @@ def leaf(x, lossless=True):
     return sym(x)
   if isinstance(x, _rec.Sentinel):
     return ('S', x.n)
+  if getattr(type(x), 'vt_value_object', False):
+    return ('V', sym(type(x)), repr(x))
   t = type(x)
   if isinstance(x, tuple):
     return ('tuple' if t is tuple else ('nt', sym(t)), tuple(leaf(e, lossless) for e in x))
